@@ -36,9 +36,9 @@ var cons = []gen.Con{
 	{Name: "1", Arity: 0}, {Name: "DP", Arity: 0}, {Name: "E1", Arity: 0}, {Name: "E1x", Arity: 0}, {Name: "E1l", Arity: 0},
 	{Name: "LHP", Arity: 0}, {Name: "LE1", Arity: 0}, {Name: "E1s", Arity: 0}, {Name: "E1s2", Arity: 0}, {Name: "E2", Arity: 0}, {Name: "EIP", Arity: 0}, {Name: "HP", Arity: 0}, {Name: "RT", Arity: 0}, {Name: "CAR", Arity: 0}, {Name: "UND", Arity: 0},
 	{Name: "IE", Arity: 1}, {Name: "HBc", Arity: 1}, {Name: "HB1", Arity: 1}, {Name: "HBip", Arity: 1}, {Name: "HBe", Arity: 1},
-	{Name: "HBrt", Arity: 1}, {Name: "HB2", Arity: 1}, {Name: "HB2r", Arity: 1}, {Name: "HBbad", Arity: 1},
+	{Name: "HBrt", Arity: 1}, {Name: "HBiprt", Arity: 1}, {Name: "HB2", Arity: 1}, {Name: "HB2r", Arity: 1}, {Name: "HBbad", Arity: 1},
 	{Name: "HBhp", Arity: 1}, {Name: "HBhe", Arity: 1}, {Name: "HBcip", Arity: 1}, {Name: "HBipc", Arity: 1}, {Name: "HB3", Arity: 1},
-	{Name: "PG", Arity: 2}, {Name: "IE2", Arity: 2}, {Name: "HBc2", Arity: 2}, {Name: "HBrt2", Arity: 2}, {Name: "HBh", Arity: 2}, {Name: "HBx", Arity: 2}, {Name: "LIST2", Arity: 2},
+	{Name: "PG", Arity: 2}, {Name: "IE2", Arity: 2}, {Name: "HBc2", Arity: 2}, {Name: "HBrt2", Arity: 2}, {Name: "HBh", Arity: 2}, {Name: "HBiph", Arity: 2}, {Name: "HBx", Arity: 2}, {Name: "LIST2", Arity: 2},
 }
 
 func render(t *gen.Tree) string {
@@ -88,6 +88,10 @@ func render(t *gen.Tree) string {
 		return "(handler-bind ([error " + hList + "]) " + k(0) + ")"
 	case "HBrt":
 		return "(handler-bind ([condition " + hRethrow + "]) " + k(0) + ")"
+	case "HBiprt":
+		// an explicit internal-panic binding whose handler rethrows: the re-raised error is still a host panic for
+		// every enclosing ignore-errors and catch-all binding
+		return "(handler-bind ([internal-panic " + hRethrow + "]) " + k(0) + ")"
 	case "HB2":
 		return "(handler-bind ([c2 " + hTwo + "] [condition " + hList + "]) " + k(0) + ")"
 	case "HB2r":
@@ -119,6 +123,8 @@ func render(t *gen.Tree) string {
 		return "(ignore-errors " + k(0) + " " + k(1) + ")"
 	case "HBh":
 		return "(handler-bind ([condition (lambda (c &rest d) " + k(0) + ")]) " + k(1) + ")"
+	case "HBiph":
+		return "(handler-bind ([internal-panic (lambda (c &rest d) " + k(0) + ")]) " + k(1) + ")"
 	case "HBx":
 		return "(handler-bind ([condition (progn " + k(0) + " " + hList + ")]) " + k(1) + ")"
 	case "LIST2":
@@ -248,7 +254,7 @@ func run(r *core.Run) {
 	total := g.Total(size)
 	r.Bound("max_nodes", size)
 	r.Bound("terms", total)
-	r.Rule("every term of the condition grammar (13 leaves: value, marker, (error 'c1 ..) with plain / unquoted-symbol / unquoted-list data / a lone string containing percent signs / that string and a second datum, (error 'c2), a lisp error NAMED internal-panic, a host panic, a host panic and an ordinary error raised inside a source loaded with load-string, rethrow outside a handler, a builtin type error, an unbound symbol; 12 unary: ignore-errors and handler-bind with the catch-all before / after an explicit internal-panic binding, four bindings, and specifier condition / c1 / internal-panic / error / rethrowing handler / two bindings in both orders / a non-function handler; 7 binary: progn, 2-form ignore-errors, 2-form handler-bind bodies (catch-all and rethrowing), handler whose BODY is a term, handler EXPRESSION that evaluates a term, list) up to the node bound. Non-trivial = an error or host panic is raised somewhere in the term; distinct by source text")
+	r.Rule("every term of the condition grammar (13 leaves: value, marker, (error 'c1 ..) with plain / unquoted-symbol / unquoted-list data / a lone string containing percent signs / that string and a second datum, (error 'c2), a lisp error NAMED internal-panic, a host panic, a host panic and an ordinary error raised inside a source loaded with load-string, rethrow outside a handler, a builtin type error, an unbound symbol; 13 unary: ignore-errors and handler-bind with the catch-all before / after an explicit internal-panic binding, four bindings, and specifier condition / c1 / internal-panic / error / rethrowing handler under condition and under internal-panic / two bindings in both orders / a non-function handler; 8 binary: progn, 2-form ignore-errors, 2-form handler-bind bodies (catch-all and rethrowing), handler whose BODY is a term (bound to condition and to internal-panic), handler EXPRESSION that evaluates a term, list) up to the node bound. Non-trivial = an error or host panic is raised somewhere in the term; distinct by source text")
 	r.Assume("function values print as #<fun>; error messages are not compared, condition names are")
 	core.ParallelRange(r, total, nil, func(_ struct{}, i int64) {
 		t := g.At(size, i)
